@@ -886,6 +886,11 @@ func (env *SpecEnv) evalCall(x *ast.CallExpr) TV {
 			defer func() { vc.pure-- }()
 			return sub.evalBoolExpr(x.Args[2])
 		}()
+		// trigger on the slot term of the quantified map: instantiated for every key the VC mentions
+		slot := vc.mapSlot(bv, width(mt.Elem())+1)
+		if strings.Contains(body, slot) {
+			return boolTV(fmt.Sprintf("(forall ((%s Int)) (! %s :pattern (%s)))", bv, body, slot))
+		}
 		return boolTV(fmt.Sprintf("(forall ((%s Int)) %s)", bv, body))
 	case "unchanged":
 		cur := env.evalTV(x.Args[0])
